@@ -272,22 +272,64 @@ def _new_stats():
 
 
 def shard_subsets(args):
-    """width 3 (all subsets): A in a chunk x all B x all operations."""
-    w, lo, hi = args
+    """width 3 (all subsets): A in a chunk x B x all operations.
+    restrict: B only over the empty set and the 36 single intervals (quick tier)."""
+    w, lo, hi, restrict = args
+    MI = _MI()
     st = _new_stats()
     vs = []
     n = 0
-    nsets = 1 << (1 << w)
+    N = 1 << w
+    nsets = 1 << N
+    full = nsets - 1
+    IV = [to_ivs(bits, w) for bits in range(nsets)]
+    # rowimg[name][x][b] = { op(x, y) : y in b } as a bitmask, built incrementally over the lowest member of b
+    rowimg = {}
+    for name, conc, _ in BIN:
+        tab = []
+        for x in range(N):
+            row = [0] * nsets
+            for bits in range(1, nsets):
+                low = bits & -bits
+                row[bits] = row[bits ^ low] | (1 << conc(x, low.bit_length() - 1, w))
+            tab.append(row)
+        rowimg[name] = tab
     for a in range(lo, hi):
+        amem = members(a)
+        A = MI(w, IV[a])
         for b in range(nsets):
-            for name, _, _ in BIN:
+            if restrict and len(IV[b]) > 1:
+                continue
+            B = MI(w, IV[b])
+            for name, conc, f in BIN:
                 n += 1
-                vs += check_bin(w, name, a, b, None, st)
+                try:
+                    R = f(A, B)
+                    rm = mi_mask(R, w)
+                    bad = isinstance(rm, str)
+                except Exception:
+                    bad = True
+                if not bad:
+                    img = 0
+                    tab = rowimg[name]
+                    for x in amem:
+                        img |= tab[x][b]
+                    bad = bool(img & ~rm) or mi_mask(A, w) != a or mi_mask(B, w) != b
+                if bad:
+                    vs += check_bin(w, name, a, b, None, st)   # slow path builds the record (and counts empty operands)
+                    A = MI(w, IV[a])
+                    B = MI(w, IV[b])
+                    continue
+                if rm != full:
+                    st["nontrivial"] += 1
+                st["outcomes"].add(rm)
             for name in SET_OPS:
                 n += 1
                 vs += check_set(w, name, a, b, st)
         for kk in range(1 << w):
             for name, _, _ in BIN:
+                if name == "add-neg":
+                    continue  # -k is not a value of the domain
                 n += 1
                 vs += check_bin(w, name, a, 1 << kk, kk, st)
         n += 1
@@ -302,7 +344,13 @@ def shard_subsets(args):
             "outcomes": len(st["outcomes"]), "sample": None}
 
 
+Q5 = [0, 1, 3, 4, 5, 6, 15, 16, 17, 30, 31]
+
+
 def bounds_for(w, bounded):
+    """interval bounds: all values, refsem.boundary(w), or (quick tier, width 5) the constant list Q5"""
+    if bounded == "q5":
+        return list(Q5)
     return refsem.boundary(w) if bounded else list(range(1 << w))
 
 
@@ -397,15 +445,12 @@ def shard_intervals_unary(args):
                             vs += check_set(w, name, bits, iv_bits(c, d), st)
             for kk in pts:
                 for name, _, _ in BIN:
+                    if name == "add-neg":
+                        continue
                     n += 1
-                    vs += check_bin(w, name, bits, 1 << kk, kk, st) if w <= 5 else _bin_int(w, name, a, b, kk, st)
+                    vs += check_bin(w, name, bits, 1 << kk, kk, st)
     return {"n": n, "nt": st["nontrivial"], "vs": _cap(vs), "raised_on_empty": st["raised_on_empty"], "pre": st["precondition_skipped"],
             "outcomes": len(st["outcomes"]), "sample": None}
-
-
-def _bin_int(w, name, a, b, kk, st):
-    """wide single interval op integer (image computed directly over the interval)."""
-    return check_bin(w, name, iv_bits(a, b), 1 << kk, kk, st)
 
 
 def _cap(vs, per_sig=3):
@@ -494,13 +539,12 @@ def check_expr(e, stats=None):
     vals = list(itertools.product(*[range(1 << i.size) if i.size <= 4 else refsem.boundary(i.size) for i in ids]))
     try:
         R = expr_range(e)
-    except ZeroDivisionError as ex:
+    except Exception as ex:
         if divisor_always_zero(e, ids, vals):
+            # x % 0 has no value: the analysis yields the empty set for it and the enclosing handlers reject empty operands
             if stats is not None:
                 stats["undefined_modulo"] += 1
             return []
-        return [violation("expr_range:raise:ZeroDivisionError:%s" % expr_skeleton(e), "expr_range(%s) raised %r" % (e, ex), case)]
-    except Exception as ex:
         return [violation("expr_range:raise:%s:%s" % (type(ex).__name__, expr_skeleton(e)), "expr_range(%s) raised %r" % (e, ex), case)]
     w = e.size
     if R.size != w:
@@ -532,69 +576,109 @@ def check_expr(e, stats=None):
     return []
 
 
-def expr_lattice(thorough):
-    """Deterministic list of expressions (depth <= 2, handled operators only)."""
-    widths = [1, 2, 3]
-    if thorough:
-        g = exprgen.Gen(widths, nids=2, rich_consts=True)
-    else:
-        g = exprgen.Gen(widths, nids=2, rich_consts=True, sib_consts=lambda w: [0, 1, (1 << w) - 1, 1 << (w - 1)])
-    out = []
-    seen = set()
+class RGen(exprgen.Gen):
+    """exprgen lattice restricted to the node kinds expr_range has a transfer function for."""
 
-    def add(e):
-        if e not in seen and handled_only(e):
-            seen.add(e)
-            out.append(e)
+    def specs(self, w):
+        key = ("rspecs", w)
+        if key not in self._memo:
+            keep = []
+            for sp in exprgen.Gen.specs(self, w):
+                tag = sp[0]
+                if tag in HANDLED or tag == "neg" or tag.startswith("slice") or tag.startswith("compose") or tag.startswith("cond"):
+                    if tag == "-":
+                        continue  # binary minus is not an IR operator expr_range knows
+                    keep.append(sp)
+            self._memo[key] = keep
+        return self._memo[key]
 
-    for w in widths:
-        for e in g.leaves(w):
-            add(e)
-        for e in g.depth1(w):
-            add(e)
-    for w in widths:
-        for e in g.depth2_spine(w, deep_pool=(g.depth1 if thorough else g.depth1_core)):
-            add(e)
-    # memory reads (full range leaves) under slices / compositions / operators
+
+EXPR_WIDTHS = [1, 2, 3]
+SPINE_K = 24
+_gens = {}
+
+
+def gen_for(thorough):
+    if thorough not in _gens:
+        if thorough:
+            _gens[thorough] = RGen(EXPR_WIDTHS, nids=2, rich_consts=True)
+        else:
+            _gens[thorough] = RGen(EXPR_WIDTHS, nids=2, rich_consts=True, sib_consts=lambda w: [0, 1, (1 << w) - 1])
+    return _gens[thorough]
+
+
+def mem_family():
+    """memory reads (full-range leaves) under slices / compositions / operators"""
     E = exprgen._E()
+    out = []
     p = E.ExprId("p8", 8)
     m = E.ExprMem(p, 8)
     for st, sp in ((0, 3), (5, 8), (2, 4), (0, 1)):
         s = E.ExprSlice(m, st, sp)
-        add(s)
+        out.append(s)
         for c in range(1 << (sp - st)):
             k = E.ExprInt(c, sp - st)
             for op in ("+", "&", "|", "^", "*", "<<", ">>", "a>>", ">>>", "<<<"):
-                add(E.ExprOp(op, s, k))
-                add(E.ExprOp(op, k, s))
-        add(E.ExprOp("-", s))
-    add(E.ExprCompose(E.ExprSlice(m, 0, 1), E.ExprSlice(E.ExprMem(E.ExprOp("+", p, E.ExprInt(1, 8)), 8), 6, 8)))
-    add(E.ExprCond(m, E.ExprInt(1, 3), E.ExprInt(6, 3)))
+                out.append(E.ExprOp(op, s, k))
+                out.append(E.ExprOp(op, k, s))
+        out.append(E.ExprOp("-", s))
+    out.append(E.ExprCompose(E.ExprSlice(m, 0, 1), E.ExprSlice(E.ExprMem(E.ExprOp("+", p, E.ExprInt(1, 8)), 8), 6, 8)))
+    out.append(E.ExprCond(m, E.ExprInt(1, 3), E.ExprInt(6, 3)))
     return out
 
 
-_lat = {}
+def expr_part(thorough, part):
+    """part = ("d1", w) | ("spine", w, k) | ("mem",): iterator over the expressions of one part of the lattice."""
+    g = gen_for(thorough)
+    if part[0] == "d1":
+        return itertools.chain(g.leaves(part[1]), g.depth1(part[1]))
+    if part[0] == "spine":
+        w, k = part[1], part[2]
+        specs = g.specs(w)
+        if not thorough and k < len(specs) and specs[k][0].startswith("cond") and k + SPINE_K >= len(specs):
+            return quick_conds(g, w, specs[k])
+        return g.depth2_spine(w, deep_pool=(g.depth1 if thorough else g.depth1_core), k=k, K=SPINE_K)
+    return iter(mem_family())
 
 
-def get_expr_lattice(thorough):
-    if thorough not in _lat:
-        _lat[thorough] = expr_lattice(thorough)
-    return _lat[thorough]
+def quick_conds(g, w, spec):
+    """quick tier: conditionals with one depth-1 child; the condition sibling is an identifier, arm siblings are
+    sib_leaves (the range of a conditional does not depend on its condition)"""
+    tag, cws, mk, _ = spec
+    for pos in range(3):
+        for d in g.depth1_core(cws[pos]):
+            sibs = []
+            for i, cw in enumerate(cws):
+                if i == pos:
+                    continue
+                sibs.append(g.ids(cw)[:1] if i == 0 else (g.sib_leaves(cw) if pos == 0 else g.sib_leaves(cw)[1:4]))
+            for sc in itertools.product(*sibs):
+                ch = list(sc)
+                ch.insert(pos, d)
+                yield mk(ch)
 
 
 def shard_exprs(args):
-    thorough, idx, nsh = args
-    lat = get_expr_lattice(thorough)
+    thorough, part = args
+    part = tuple(part)
     st = {"evals": 0, "nontrivial": 0, "undefined_vals": 0, "undefined_modulo": 0}
     vs = []
     n = 0
     sample = None
-    for i in range(idx, len(lat), nsh):
-        e = lat[i]
+    seen = set()
+    j, J = (part[3], part[4]) if len(part) > 3 else (0, 1)
+    for i, e in enumerate(expr_part(thorough, part)):
+        if i % J != j:
+            continue
+        if e in seen:
+            continue
+        seen.add(e)
+        if not handled_only(e):
+            continue
         n += 1
         nt0 = st["nontrivial"]
         vs += check_expr(e, st)
-        if sample is None and st["nontrivial"] > nt0 and not e.is_int() and i > len(lat) // 2:
+        if sample is None and st["nontrivial"] > nt0 and part[0] == "spine" and n > 50:
             sample = {"expr": str(e)}
     return {"n": n, "nt": st["nontrivial"], "vs": _cap(vs), "raised_on_empty": 0, "pre": 0, "outcomes": 0, "sample": sample,
             "evals": st["evals"], "undefined_vals": st["undefined_vals"], "undefined_modulo": st["undefined_modulo"]}
@@ -612,29 +696,40 @@ def _dispatch(args):
 
 
 def plan(thorough):
+    """Shards. Few large shards in the quick tier (the pool overhead dominates there), fine ones in thorough."""
     shards = []
-    # width 3: all subsets
-    step = 4
+    step = 4 if thorough else 16
     for lo in range(0, 256, step):
-        shards.append(("subsets", 3, lo, lo + step))
-    specs = [(4, False), (5, not thorough)] + ([(8, True)] if thorough else [])
+        shards.append(("subsets", 3, lo, lo + step, not thorough))
+    specs = [(4, False), (5, False if thorough else "q5")] + ([(8, True)] if thorough else [])
     for w, bounded in specs:
         npts = len(bounds_for(w, bounded))
-        chunk = 2 if w >= 5 else 4
+        chunk = npts if not thorough else (2 if w >= 5 else 4)
         for name, _, _ in BIN:
             for lo in range(0, npts, chunk):
                 shards.append(("intervals", w, bounded, name, lo, lo + chunk))
         shards.append(("unary", w, bounded))
-    nsh = 64
-    for i in range(nsh):
-        shards.append(("exprs", thorough, i, nsh))
+    g = gen_for(thorough)
+    for w in EXPR_WIDTHS:
+        shards.append(("exprs", thorough, ("d1", w)))
+        nspecs = len(g.specs(w))
+        for k in range(min(SPINE_K, nspecs)):
+            J = 1
+            if thorough and g.specs(w)[k][0].startswith(("cond", "compose3")):
+                J = 8 if w == 3 else 4
+            for j in range(J):
+                shards.append(("exprs", thorough, ("spine", w, k, j, J)))
+    shards.append(("exprs", thorough, ("mem",)))
     return shards, specs
 
 
 def run(ctx):
     thorough = not ctx.quick
     import miasm.analysis.expression_range  # noqa: before the pool forks
-    get_expr_lattice(thorough)
+    g = gen_for(thorough)
+    for w in EXPR_WIDTHS:      # memoised pools are built once, before the pool forks
+        g.depth1(w)
+        g.depth1_core(w)
     shards, specs = plan(thorough)
     res = ctx.pmap(_dispatch, shards)
     allv = []
@@ -651,9 +746,11 @@ def run(ctx):
         "distinct_nontrivial": sum(r["nt"] for r in res),
         "samples": [r["sample"] for r in res if r["sample"]][:6],
         "exhaustive": True,
-        "bounds": {"subset_width": 3, "interval_widths": [{"width": w, "bounds": "refsem.boundary" if b else "all"} for w, b in specs],
+        "bounds": {"subset_width": 3, "subset_pairs": "all 65536" if thorough else "A: all 256 subsets, B: empty or one interval (37)",
+                   "interval_widths": [{"width": w, "bounds": ("Q5=%r" % Q5) if b == "q5" else ("refsem.boundary" if b else "all")} for w, b in specs],
                    "binary_ops": [n for n, _, _ in BIN], "set_ops": SET_OPS, "unary": ["neg", "mod k", "size_update"],
-                   "expr_widths": [1, 2, 3], "expr_depth": 2, "expressions": len(get_expr_lattice(thorough))},
+                   "expr_widths": EXPR_WIDTHS, "expr_depth": 2,
+                   "expressions": sum(r["n"] for sh, r in zip(shards, res) if sh[0] == "exprs")},
         "evaluations_by_part": by_kind,
         "expression_valuations": sum(r.get("evals", 0) for r in res),
         "undefined_valuations_skipped": sum(r.get("undefined_vals", 0) for r in res),
